@@ -911,6 +911,11 @@ except ImportError:
 
         """
         N = len(b)
+        if any(np.asarray(v).dtype.kind in 'iub' for v in (d, e, b)):
+            # the work vectors below take the dtype of the operands: integer
+            # operands would silently truncate every quotient (the compiled
+            # version refuses them as well)
+            raise ValueError("tridisolve needs floating point operands")
         # work vectors
         dw = d.copy()
         ew = e.copy()
